@@ -435,7 +435,7 @@ func (r *runner) recvAll(c netio.Conn, d *Dir, dir string) (got []byte, ok bool)
 			}
 			size := bufs[i%len(bufs)]
 			r.ops.Add(1)
-			n, err := c.Read(buf[:size])
+			n, err := c.Read(buf[:size:size])
 			if n < 0 || n > size {
 				r.fail("read-count", dir, "Read(buf[%d]) returned n=%d", size, n)
 				return got, false
